@@ -4,6 +4,7 @@ import (
 	"bufio"
 	"bytes"
 	"fmt"
+	"math/big"
 	"strings"
 	"testing"
 	"time"
@@ -468,6 +469,7 @@ func init() {
 	reg("C13receive", runRecv)
 	reg("C13faults", runFault)
 	reg("C13auth", runAuthPayload)
+	reg("C13oddkeys", runOddKey)
 }
 
 // genBig draws a selector that is as often large as small (rapid's integer ranges favour small values,
@@ -702,4 +704,83 @@ func TestProp_C13_Faults(t *testing.T) {
 		}
 	}
 	sim.MarkCompleted("C13faults", true)
+}
+
+// ---- key exchange with a peer whose DSA public key has unusual parameter sizes ----
+
+// OddKeyCase: the authenticated-looking peer advertises a DSA key with a q of QBits bits (real OTR keys: 160).
+type OddKeyCase struct {
+	V       int `json:"v"`
+	Starter int `json:"starter"`
+	QBits   int `json:"qbits"`
+	PBits   int `json:"pbits"`
+}
+
+func oddInt(bits, salt int) *big.Int {
+	if bits <= 0 {
+		return new(big.Int)
+	}
+	b := filler(1, (bits+7)/8, salt)
+	v := new(big.Int).SetBytes(b)
+	v.SetBit(v, bits-1, 1)
+	for v.BitLen() > bits {
+		v.Rsh(v, 1)
+	}
+	return v.SetBit(v, 0, 1)
+}
+
+func runOddKey(c *OddKeyCase) *sim.Outcome {
+	o := &sim.Outcome{}
+	sim.Crumb("C13oddkeys", c)
+	m := newMix(SessCfg{V: c.V, SeedA: 2300, SeedB: 2401, KeyA: 0, KeyB: 3}, 0)
+	pub := []byte{0, 0}
+	pub = ref.PutMPI(pub, oddInt(c.PBits, 1))
+	pub = ref.PutMPI(pub, oddInt(c.QBits, 2))
+	pub = ref.PutMPI(pub, big.NewInt(2))
+	pub = ref.PutMPI(pub, oddInt(c.PBits-1, 3))
+	m.R.Advertise = pub
+	ms := sim.Measure(watchdog, func() { m.Establish(c.Starter) })
+	if !ms.Verdict(o, "Receive(key exchange with an unusual DSA key)", 2000) {
+		if ms.Hung {
+			sim.FailHard("C13oddkeys", o, c)
+		}
+		return o
+	}
+	if m.A.C.IsEncrypted() {
+		return o.Fail("C13/oddkey-accepted", "the victim became encrypted although the peer's signature cannot verify under the advertised key (q of %d bits)", c.QBits)
+	}
+	o.Class(fmt.Sprintf("q%d", c.QBits))
+	o.NonTrivial = true
+	// afterwards an honest exchange with the same peer still works
+	m.R.Advertise = nil
+	m.R.State, m.R.TheirTag = ref.StNone, 0
+	m.QtoA, m.QtoR = nil, nil
+	sim.Age(m.A.C, 5*60e9)
+	if !m.Establish(c.Starter) {
+		return o.Fail("C13/unusable", "after the failed exchange an honest key exchange does not complete")
+	}
+	return o
+}
+
+func TestProp_C13_OddKeys(t *testing.T) {
+	defer sim.ClearCrumb()
+	si, sn := sim.Shard()
+	idx := 0
+	for _, v := range []int{3, 2} {
+		for starter := 0; starter < 2; starter++ {
+			for _, qb := range []int{0, 1, 8, 64, 159, 160, 161, 200, 248, 249, 256, 320, 512, 1024} {
+				for _, pb := range []int{1024, 64, 2048} {
+					if pb != 1024 && qb != 256 && qb != 160 {
+						continue
+					}
+					idx++
+					if idx%sn != si {
+						continue
+					}
+					sim.Judge(t, "C13oddkeys", &OddKeyCase{V: v, Starter: starter, QBits: qb, PBits: pb})
+				}
+			}
+		}
+	}
+	sim.MarkCompleted("C13oddkeys", true)
 }
